@@ -48,6 +48,11 @@ fn main() {
             let seed: u64 = args.get(3).and_then(|x| x.parse().ok()).unwrap_or_else(|| usage());
             driver::cmd_crashprobe(prop, seed, args.get(4).unwrap_or_else(|| usage()))
         }
+        "shrink" => driver::cmd_shrink(
+            args.get(2).unwrap_or_else(|| usage()),
+            args.get(3).unwrap_or_else(|| usage()),
+            args.get(4).and_then(|x| x.parse().ok()).unwrap_or(100),
+        ),
         "exec-trace" => driver::cmd_exec_trace(args.get(2).unwrap_or_else(|| usage())),
         "replay" => driver::cmd_replay(args.get(2).unwrap_or_else(|| usage())),
         "determinism" => {
